@@ -558,7 +558,7 @@ def _is_fast_path(fnode, cmp):
     return False
 
 
-def r6_identity(ctx):
+def r6_identity(ctx, rule="C10.R6"):
     r, repo = ctx.r, ctx.repo
     n = 0
     suspects = ("parent", "location", "sequence", "_location", "chunk_relative_location", "chromosome_location")
@@ -580,10 +580,10 @@ def r6_identity(ctx):
                     continue  # `a is b or a == b`: identity only short-cuts an equality on the same operands
                 if any(x in suspects for x in last):
                     n += 1
-                    r.violation("C10.R6", fn.qual, f"identity comparison `{src(node)}`",
+                    r.violation(rule, fn.qual, f"identity comparison `{src(node)}`",
                                 f"`{src(node)}` compares cached / reconstructible objects by identity: the answer depends on whether the "
                                 f"Parent cache still holds the entry", (fn, node))
-    r.ok("C10.R6", "inscripta.biocantor", "no identity comparison on Parent / Location / Sequence values", None, f"{n} suspects")
+    r.ok(rule, "inscripta.biocantor", "no identity comparison on Parent / Location / Sequence values", None, f"{n} suspects")
 
 
 RULES = [
